@@ -376,8 +376,34 @@ partial def fkind : Kind3 → String
   | .rcyl => "rcyl" | .rcone => "rcone" | .rtri => "rtri" | .rpolyh => "rpolyh"
   | .compound ps => ps.foldl (fun s p => s ++ " " ++ fkind p) s!"compound {ps.length}"
 
+open Model.Acc in
+partial def kindOf2 : Sh2 → Kind2
+  | .ball .. => .ball | .cuboid .. => .cuboid | .capsule .. => .capsule | .seg .. => .seg | .tri .. => .tri | .hs .. => .hs
+  | .polygon .. => .polygon | .polygono .. => .polygon | .polyline .. => .polyline | .hf .. => .hf
+  | .round (.cuboid ..) _ => .rcuboid | .round _ _ => .rpolygon
+  | .compound ps => .compound (ps.map fun ((_, p) : Iso2 Rat × Sh2) => kindOf2 p)
+open Model.Acc in
+partial def fkind2 : Kind2 → String
+  | .ball => "ball" | .cuboid => "cuboid" | .capsule => "capsule" | .seg => "seg" | .tri => "tri" | .hs => "hs" | .polygon => "polygon"
+  | .polyline => "polyline" | .hf => "hf" | .rcuboid => "rcuboid" | .rpolygon => "rpolygon"
+  | .compound ps => ps.foldl (fun s p => s ++ " " ++ fkind2 p) s!"compound {ps.length}"
+
 def handler (fn : String) : Option Handler :=
   match fn with
+  | "scale_dyn_kind2" => some {
+      model := fun a => (run (do let S ← psh2; let s ← pv2; let _n ← pnat; pure (S, s)) a).map fun (S, s) =>
+        fkind2 (Model.Acc.scaleDynKind2 s (kindOf2 S))
+      oracle := fun a o =>
+        match run (do let S ← psh2; let s ← pq2; let n ← pnat; pure (S, s, n)) a with
+        | none => "skip bad-args"
+        | some (_, s, n) =>
+          if s.x = 0 || s.y = 0 then "skip degenerate-scale" else
+          if n < 3 then "skip fewer-than-3-subdivisions" else
+          match o with
+          | "panic" :: _ => "fail panic"
+          | ["none"] => "fail none-for-a-non-degenerate-scale"
+          | "unknown-shape" :: _ => "fail unknown-shape"
+          | _ => "pass" }
   | "scale_dyn_kind3" => some {
       -- the scale is compared at `Float` (`==`), the descriptor only contributes its kind
       model := fun a => (run (do let S ← psh3; let s ← pv3; let _n ← pnat; pure (S, s)) a).map fun (S, s) =>
